@@ -138,7 +138,7 @@ class Parser:
     def process_line_before_comment(self) -> str:
         """get useful codeline - remove comment"""
         code_line = ""
-        if IN_COM in self.line:
+        if IN_COM in self.line and OP_COM not in self.line.split(IN_COM)[0]:
             code_line = self.process_in_comment(self.line)
         elif CL_COM not in self.line and OP_COM not in self.line:
             code_line = self.line
@@ -148,7 +148,7 @@ class Parser:
         """this method сatches comments like "create table ( # some comment" - inline this statement"""
         comment = None
         code_line = self.process_line_before_comment()
-        if OP_COM in self.line:
+        if OP_COM in self.line.split(IN_COM)[0]:
             splitted_line = self.line.split(OP_COM)
             code_line += splitted_line[0]
             comment = splitted_line[1]
